@@ -76,7 +76,13 @@ class Tripwire:
         saved = {}
         saved_py = {}
 
+        orig_rand = np.random.rand
+
         def fake_rand(*args):
+            if self.value is None:          # record mode: the real generator draws, the value is only logged
+                x = orig_rand(*args)
+                self.draws.append(float(np.asarray(x).reshape(-1)[0]))
+                return x
             self.draws.append(self.value)
             if args:
                 return np.full(args, self.value)
@@ -264,6 +270,8 @@ class Recorder:
         after = after_state.tensor
         arity = len(ret) if isinstance(ret, tuple) else -1
         obs, reward, term, trunc, info = ret
+        if u is None:
+            u = self.trip.draws[0] if self.trip.draws else 0.5
         ev = dict(ev="step", env=eid, a=adesc, u=ppm(u), ndraw=len(self.trip.draws),
                   entropy=list(self.trip.others),
                   pre_rows=diff_rows(self.last_post[eid], before),
@@ -307,6 +315,8 @@ class Recorder:
             oarr = obs.numpy_flat()
         else:
             oarr = obs.numpy()
+        if u is None:
+            u = self.trip.draws[0] if self.trip.draws else 0.5
         ev = dict(ev="genstep", env=eid, a=adesc, u=ppm(u), ndraw=len(self.trip.draws),
                   entropy=list(self.trip.others),
                   pre_rows=diff_rows(self.last_post[eid], arg_copy),
